@@ -6,6 +6,7 @@ the documented steps; statistics columns == FlowCal.stats of the gated sample; h
 the library's bin edges.  The library steps themselves run under their own monitors in situ (C03/C05/C06/C08/C12/C19).
 """
 import os
+import sys
 import warnings
 
 import numpy as np
@@ -97,7 +98,15 @@ def run(ctx):
           itab, btab, stab, info = excelgen.experiment(rng, base, n_beads=int(rng.integers(0, 3)) if cid[1] % 2 else 1,
                                                      force_float_first=('D' if cid[1] % 4 == 0 else True) if cid[1] % 2 == 0 else False,   # single / double precision
                                                      permute_columns=0.9 if cid[1] % 2 else 0.2,   # cell files laid out unlike the beads file
-                                                     units_pool=excelgen.UNITS + (['MEF', 'mef'] if cid[1] % 2 else []))
+                                                     units_pool=(['Channel', 'Channel', 'RFI', 'a.u.', 'MEF', 'au'] if cid[1] % 4 == 3      # raw-channel cells before converted ones
+                                                                 else excelgen.UNITS))
+        if cid[1] % 4 == 3 and len(stab) >= 1:
+            # a raw-channel cell ('Channel': linear bins) is processed BEFORE a converted one (logicle bins) in the same table
+            fl_of = lambda sid_: [c.strip() for c in itab.at[stab.at[sid_, 'Instrument ID'], 'Fluorescence Channels'].split(',')]
+            first, last = stab.index[0], stab.index[-1]
+            stab.at[first, fl_of(first)[0] + ' Units'] = 'Channel'
+            if len(stab) > 1 or len(fl_of(last)) > 1:
+                stab.at[last, fl_of(last)[-1] + ' Units'] = 'RFI'
         np.random.seed(int(rng.integers(1 << 30)))
         with warnings.catch_warnings():
             warnings.simplefilter('ignore')
@@ -200,7 +209,7 @@ def run(ctx):
                         if ch not in reps[sid]:
                             ctx.check(pd.isnull(st.at[sid, c]), 'stats:unreported-channel-has-statistics', cid, sample=sid, channel=ch)
         # ---- histogram sheet --------------------------------------------------------------
-        if rng.random() < 0.8 and not oa.raised:
+        if (rng.random() < 0.8 or cid[1] % 4 == 3) and not oa.raised:
             with warnings.catch_warnings():
                 warnings.simplefilter('ignore')
                 oh = core.attempt(E.generate_histograms_table, st, samples)
